@@ -103,7 +103,11 @@ func cmdCheck(args []string) {
 		cc.perMs = 60000
 	}
 	dir, _ := os.MkdirTemp("", "govc-"+prop+"-")
-	defer os.RemoveAll(dir)
+	if os.Getenv("GOVC_KEEP") == "" {
+		defer os.RemoveAll(dir)
+	} else {
+		fmt.Println("keeping", dir)
+	}
 	cc.dir = dir
 	solvers := []string{"z3new", "cvc5", "z3"}
 	fns := e.selectFuncs(nil, prop, prop == "C01" && tier == "thorough" && os.Getenv("GOVC_SWEEP") != "")
@@ -284,6 +288,112 @@ func (cc *checkCtx) propertySpecific() {
 	cc.runLemmas()
 }
 
-func (cc *checkCtx) runLemmas() {}
+// runLemmas discharges the standalone lemmas tagged with the property (SMT validity of a closed contract formula).
+func (cc *checkCtx) runLemmas() {
+	e := cc.e
+	for _, l := range e.db.Lemmas {
+		if !hasTag(l.Tags, cc.prop) {
+			continue
+		}
+		o := e.proveLemma(l, cc.dir, cc.perMs)
+		cc.extra = append(cc.extra, o)
+	}
+}
+
+func (e *Engine) proveLemma(l *LemmaSpec, dir string, perMs int) *Obligation {
+	vc := &FnVC{eng: e, key: "lemma:" + l.Pkg + "." + l.Name, sorts: NewSorts(e.db), declared: map[string]bool{},
+		epMemo: map[string]string{}, assumes: map[string]bool{}, oblNames: map[string]int{}, tablesUsed: map[string]bool{}, specFnUsed: map[string]bool{}}
+	st := &state{reach: "true", regs: map[*ssa.Alloc]string{}, heap: map[string]string{}, ep: vc.newEpoch()}
+	st.alloc = vc.declare("alloc0", "Int")
+	st.ep.alloc = "alloc0"
+	vc.old = st
+	o := &Obligation{Name: vc.key + "#lemma@" + shorten(l.Src, 60), Kind: "lemma", Tags: l.Tags, Fn: vc.key, Desc: l.Src}
+	c := vc.newCtx(nil, st, st, nil)
+	if p := e.byName[l.Pkg]; p != nil {
+		c.pkg = p.Pkg
+	}
+	var term string
+	func() {
+		defer func() {
+			if r := recover(); r != nil {
+				if ee, ok := r.(evalErr); ok {
+					e.specError("lemma %s: %s", l.Name, string(ee))
+					term = "false"
+					return
+				}
+				panic(r)
+			}
+		}()
+		term = c.peelForall(l.E)
+	}()
+	var sb strings.Builder
+	sb.WriteString("(set-logic ALL)\n")
+	for _, d := range vc.sorts.decls {
+		sb.WriteString(d + "\n")
+	}
+	for _, d := range vc.decl {
+		sb.WriteString(d + "\n")
+	}
+	for _, b := range vc.body {
+		sb.WriteString(b + "\n")
+	}
+	fmt.Fprintf(&sb, "(assert (not %s))\n(check-sat)\n", term)
+	file := filepath.Join(dir, sanitize(vc.key)+".smt2")
+	os.WriteFile(file, []byte(sb.String()), 0o644)
+	sec := perMs/1000 + 5
+	for _, sv := range [][]string{{"cvc5", "cvc5", "--lang=smt2", "--strings-exp", fmt.Sprintf("--tlimit=%d", perMs), file},
+		{"z3new", "z3-new", "-smt2", fmt.Sprintf("-T:%d", sec), file}, {"z3", "z3", "-smt2", fmt.Sprintf("-T:%d", sec), file}} {
+		out := strings.TrimSpace(runRaw(sv[1:], sec+5))
+		first := strings.SplitN(out, "\n", 2)[0]
+		if first == "unsat" || first == "sat" {
+			o.Result, o.Solver = first, sv[0]
+			if first == "sat" {
+				o.Desc = l.Src + " -- solver output: " + truncate(out, 500)
+			}
+			return o
+		}
+		if o.Result == "" {
+			o.Result, o.Solver = "unknown", sv[0]
+		}
+	}
+	return o
+}
 
 var _ = ssa.NaiveForm
+
+// peelForall evaluates a formula to be proved valid, turning its positive universal quantifiers into fresh constants
+// (manual skolemisation of the negated goal; helps the string solvers).
+func (c *evalCtx) peelForall(e Expr) string {
+	switch x := e.(type) {
+	case *EQuant:
+		if x.Forall {
+			var ranges []string
+			for _, qv := range x.Vars {
+				t := c.resolveType(qv.Type)
+				srt := "Int"
+				if t != tMathInt {
+					srt = c.vc.sorts.SortOf(t)
+				}
+				n := c.vc.freshConst("sk:"+qv.Name, srt)
+				if t != tMathInt {
+					if r := c.vc.sorts.RangeOf(t, n); r != "true" {
+						ranges = append(ranges, r)
+					}
+				}
+				c.vars[qv.Name] = val{t: n, typ: t}
+				c.bound[qv.Name] = true
+			}
+			body := c.peelForall(x.Body)
+			if len(ranges) > 0 {
+				return fmt.Sprintf("(=> (and %s) %s)", strings.Join(ranges, " "), body)
+			}
+			return body
+		}
+	case *EBinary:
+		if x.Op == "==>" {
+			a := c.evalB(x.X)
+			return fmt.Sprintf("(=> %s %s)", a, c.peelForall(x.Y))
+		}
+	}
+	return c.evalB(e)
+}
